@@ -263,4 +263,39 @@ example : registerAuthCheck ⟨3600, 0, ["default"], 1, .hvs, ['a', '/', 'b'], t
 example : registerAuthCheck ⟨0, 0, ["default"], 1, .hvs, ['a', '/', 'b'], true⟩ = .errZeroTTL := by decide
 example : registerAuthCheck ⟨3600, 0, ["default"], 1, .hvs, ['a', '/', '.', '.', '/', 'b'], true⟩ = .errDotDot := by decide
 
+/-! ### the token index entry is where revocation of the token looks for it — across namespaces -/
+
+/-- **token_index_found_from_owner.** Whatever the namespace of the token and the namespace of the mount that issued
+the lease: the entry `createIndexByToken` writes is listed by `lookupLeasesByToken` for the owning token (what
+`RevokeByToken` walks), and entries of other tokens/namespaces are not disturbed. -/
+theorem token_index_found_from_owner (ix : TokIdx) (tokenNs leaseNs tok lease : Nat) :
+    lease ∈ (ix.create tokenNs leaseNs tok lease).lookup tokenNs tok ∧
+    ∀ ns' tok', (ns', tok') ≠ (tokenNs, tok) →
+      (ix.create tokenNs leaseNs tok lease).lookup ns' tok' = ix.lookup ns' tok' := by
+  constructor
+  · simp [TokIdx.create, TokIdx.lookup]
+  · intro ns' tok' hne
+    have : (tokenNs == ns' && tok == tok') = false := by
+      cases h1 : tokenNs == ns' <;> cases h2 : tok == tok' <;> simp_all
+    simp [TokIdx.create, TokIdx.lookup, List.filter_cons, this]
+
+/-- removal by the same coordinates removes it again (no orphaned index entry after a revocation) -/
+theorem token_index_removed (ix : TokIdx) (tokenNs leaseNs tok lease : Nat) (hfresh : lease ∉ ix.lookup tokenNs tok) :
+    lease ∉ ((ix.create tokenNs leaseNs tok lease).remove tokenNs tok lease).lookup tokenNs tok := by
+  intro h
+  apply hfresh
+  simp only [TokIdx.create, TokIdx.remove, TokIdx.lookup, List.mem_map, List.mem_filter] at h ⊢
+  obtain ⟨e, ⟨⟨he, hk⟩, hq⟩, rfl⟩ := h
+  rcases List.mem_cons.mp he with _ | he
+  · simp [hq] at hk
+  · exact ⟨e, ⟨he, hq⟩, rfl⟩
+
+/-- **seeded change C06-4 is a violation**: written into the LEASE's namespace the entry is not found from its owning
+token as soon as the two namespaces differ (a root-namespace token, namespace 0, reading a child namespace's engine,
+namespace 1): the secret is handed out with a lease that revocation of the token never reaches. -/
+theorem token_index_in_lease_ns_cex :
+    ∃ (tokenNs leaseNs tok lease : Nat),
+      lease ∉ (({} : TokIdx).createInLeaseNs tokenNs leaseNs tok lease).lookup tokenNs tok :=
+  ⟨0, 1, 7, 9, by decide⟩
+
 end C06
